@@ -690,6 +690,34 @@ pub fn c03_case(fam: &str, idx: usize, seed: u64) -> Option<Case> {
             let desc = format!("{} size={} primitives {:?} at e{} from {:?} faults=[{}]", k.describe(), size, seq, who, trig, rules_desc(&sc.rules));
             Some(Case::from(sc, &k, desc, false))
         }
+        "stall" => {
+            // NOT part of the check (replay only): one entity's transport stops taking PDUs for good after k of
+            // them (its `request` never returns). A sender blocked like this in its data phase has no timer
+            // running and waits for ever; that is local back-pressure, not a behaviour of the peer or the link,
+            // and is recorded in DESIGN.md as an observation, not judged.
+            let mut rng = Rng::derive(seed, 307, idx as u64);
+            let mut k = rand_knobs(&mut rng, false);
+            let t = C03_TIMERS[rng.usize(C03_TIMERS.len())];
+            k.ti = t.0;
+            k.ta = t.1;
+            k.tn = t.2;
+            k.limit = t.3;
+            k.seg = 32;
+            let size = *rng.pick(&[0usize, 40, 100, 200, 600]);
+            let cl = rng.below(5);
+            let c = content(&mut rng, size, cl, 32, 1);
+            let mut sc = two_party(&case, rng.next_u64(), &k, c);
+            let n0 = first_pass_len(size, 32) + 2;
+            let who = rng.usize(2);
+            let at = if who == 0 { rng.usize(n0 + 2) } else { rng.usize(4) };
+            sc.stall_after.push((who, at));
+            if rng.chance(1, 3) {
+                sc.stall_after.push((1 - who, if who == 0 { rng.usize(4) } else { rng.usize(n0 + 2) }));
+            }
+            sc.paced = rng.bool();
+            let desc = format!("{} size={} transports stall after {:?} PDUs", k.describe(), size, sc.stall_after);
+            Some(Case::from(sc, &k, desc, false))
+        }
         "late" => {
             // PDUs that arrive late in every state a transaction can be in: something (a dropped kind, a cut, a
             // user cancel, or nothing) drives the exchange into a limit fault / a cancel / a normal end, and copies of
@@ -938,6 +966,7 @@ pub fn run_c03(tier: &str, seed: u64, replay: Option<&str>) -> (Meta, Report) {
     rep.add("cases:primseq", nr as u64);
     rep.merge(run_cases(nr, "c03-late", move |i| c03_case("late", i, seed), judge_c03));
     rep.add("cases:late", nr as u64);
+
     let n1 = c02_sys1_space().len();
     let st2 = if thorough { 1 } else { 5 };
     let m2 = n1 / st2;
